@@ -98,9 +98,10 @@ impl<C: FieldCfg> SymF<C> {
     /// Fresh symbolic variable with the given shadow value.
     pub fn var(name: impl Into<String>, shadow: u64) -> Self {
         let sh = shadow % C::P;
-        let id = with_arena(|a| {
+        let (id, sh) = with_arena(|a| {
             debug_assert_eq!(a.p, C::P, "arena modulus mismatch");
-            a.new_var(name.into(), sh)
+            let id = a.new_var(name.into(), sh);
+            (id, a.shadows[id as usize])
         });
         Self { k: 1, id, sh, _c: PhantomData }
     }
